@@ -499,6 +499,7 @@ type mutSite struct {
 // mutationSummary: does f mutate (without syncing afterwards) the handle
 // passed as parameter i? Memoised. Returns parameter indices.
 type syncAnalysis struct {
+	unsynced map[*ssa.Function]bool
 	w       *World
 	memo    map[*ssa.Function]map[int]bool
 	inProg  map[*ssa.Function]bool
@@ -548,6 +549,26 @@ func (a *syncAnalysis) sites(f *ssa.Function) []mutSite {
 			continue
 		}
 		if a.w.inModule(sc) && pkgOf(sc) != a.w.Lib {
+			if a.returnsUnsynced(sc) {
+				if cv, ok := c.(*ssa.Call); ok {
+					var h ssa.Value
+					if refs := cv.Referrers(); refs != nil {
+						for _, ref := range *refs {
+							if e, ok := ref.(*ssa.Extract); ok && e.Index == 0 {
+								h = e
+							}
+						}
+					}
+					if cv.Common().Signature().Results().Len() == 1 {
+						h = cv
+					}
+					ms := mutSite{call: c, handle: h, what: funcName(sc) + " (returns a created handle that is not synced yet)"}
+					if succ, _, ok := successEdge(cv); ok {
+						ms.start = succ
+					}
+					out = append(out, ms)
+				}
+			}
 			for pi := range a.pending(sc) {
 				args := c.Common().Args
 				if pi < len(args) {
@@ -587,6 +608,91 @@ func handleAliases(f *ssa.Function, root ssa.Value) map[ssa.Value]bool {
 		})
 	}
 	return al
+}
+
+// bypassReturns lists the may-succeed returns reachable from site s without a Sync on its handle.
+func (a *syncAnalysis) bypassReturns(f *ssa.Function, s mutSite) []*ssa.Return {
+	al := handleAliases(f, s.handle)
+	mp := newMustPerf(a.w, func(c ssa.CallInstruction) bool {
+		if c.Common().StaticCallee() != a.syncF {
+			return false
+		}
+		rv := callRecv(c)
+		return al[rv] || al[handleRoot(rv)]
+	})
+	var out []*ssa.Return
+	excluded := map[*ssa.Return]bool{}
+	for {
+		q := pathQuery{fn: f, passes: mp.instr, exit: func(rt *ssa.Return) bool { return maySucceed(rt) && !excluded[rt] }}
+		if s.start != nil {
+			q.startBlock = s.start
+		} else {
+			q.startAfter = s.call.(ssa.Instruction)
+		}
+		p, ret := findBypass(q)
+		if p == nil {
+			return out
+		}
+		out = append(out, ret)
+		excluded[ret] = true
+	}
+}
+
+// returnsHandle: the return hands the site's handle to the caller.
+func returnsHandle(f *ssa.Function, s mutSite, rt *ssa.Return) bool {
+	al := handleAliases(f, s.handle)
+	for _, res := range rt.Results {
+		if namedTypeName(res.Type()) != "Whisper" {
+			continue
+		}
+		vals, _ := resolveValue(res, rt, map[ssa.Value]bool{})
+		for _, v := range append(vals, res) {
+			if al[v] || al[handleRoot(v)] {
+				return true
+			}
+		}
+	}
+	return false
+}
+
+// returnsUnsynced: g creates (or receives from such a callee) a handle and can return it, successfully, without having synced it.
+func (a *syncAnalysis) returnsUnsynced(g *ssa.Function) bool {
+	if v, ok := a.unsynced[g]; ok {
+		return v
+	}
+	if a.unsynced == nil {
+		a.unsynced = map[*ssa.Function]bool{}
+	}
+	a.unsynced[g] = false
+	res := false
+	for _, s := range a.sites(g) {
+		if !strings.HasPrefix(s.what, "whispertool.Create") && !strings.Contains(s.what, "not synced yet") {
+			continue
+		}
+		if s.handle == nil {
+			continue
+		}
+		for _, rt := range a.bypassReturns(g, s) {
+			if returnsHandle(g, s, rt) {
+				res = true
+			}
+		}
+	}
+	a.unsynced[g] = res
+	return res
+}
+
+// capturedTarget: if the site's handle is stored into a variable captured from the enclosing function, returns that variable.
+func capturedTarget(f *ssa.Function, s mutSite) *ssa.Alloc {
+	al := handleAliases(f, s.handle)
+	for v := range al {
+		if fv, ok := v.(*ssa.FreeVar); ok {
+			if b, ok := bindingOf(fv).(*ssa.Alloc); ok {
+				return b
+			}
+		}
+	}
+	return nil
 }
 
 // pending: parameters of f whose handle is mutated in f and may be returned
@@ -684,6 +790,59 @@ func ruleC05R7(w *World, r *Report, rule string) {
 				continue
 			}
 			if wit != "" {
+				// ownership transfer: every unsynced success return hands the handle to the caller, or the handle was stored into a variable of the enclosing function
+				brs := a.bypassReturns(f, s)
+				allTransfer := len(brs) > 0
+				for _, rt := range brs {
+					if !returnsHandle(f, s, rt) {
+						allTransfer = false
+					}
+				}
+				if allTransfer {
+					n := 0
+					for _, e := range w.callers(f) {
+						if w.inModule(e.Caller.Func) {
+							n++
+						}
+					}
+					if n > 0 {
+						r.OK(rule, key, w.instrPos(s.call), fmt.Sprintf("the unsynced handle is returned: the Sync obligation passes to its %d caller(s), which are checked", n))
+						continue
+					}
+				}
+				if cap := capturedTarget(f, s); cap != nil && f.Parent() != nil {
+					// the enclosing function must sync the captured handle on every may-succeed return
+					parent := f.Parent()
+					mp := newMustPerf(w, func(c ssa.CallInstruction) bool {
+						if c.Common().StaticCallee() != syncF {
+							return false
+						}
+						return handleRoot(callRecv(c)) == ssa.Value(cap)
+					})
+					// start after the goroutines were joined (Wait), or at the entry
+					var start ssa.Instruction
+					for _, c := range callsIn(parent) {
+						if isMethodCall(c, "golang.org/x/sync/errgroup", "Group", "Wait") {
+							start = c.(ssa.Instruction)
+						}
+					}
+					q := pathQuery{fn: parent, passes: mp.instr, exit: maySucceed}
+					if cv, ok := start.(*ssa.Call); ok {
+						if succ, _, okE := successEdge(cv); okE {
+							q.startBlock = succ
+						} else {
+							q.startAfter = cv
+						}
+					} else {
+						q.startBlock = parent.Blocks[0]
+					}
+					if p, ret := findBypass(q); p != nil {
+						r.Violate(rule, funcName(parent)+":"+s.what, w.instrPos(ret), "a created, not yet synced destination handle is kept in "+cap.Comment+" and "+parent.Name()+" can report success without Whisper.Sync on it: the new file is left without its header", w.blockPathString(p))
+					} else {
+						r.OK(rule, funcName(parent)+":"+s.what, w.instrPos(s.call), "the enclosing function syncs the captured handle on every may-succeed return")
+					}
+					continue
+				}
 				r.Violate(rule, key, w.instrPos(s.call), "after "+s.what+" a success return is reachable without Whisper.Sync on the same handle: "+wit)
 			} else {
 				r.OK(rule, key, w.instrPos(s.call), "every path from the mutation to a may-succeed return passes Sync on the same handle")
